@@ -135,6 +135,9 @@ func genLogBatch(r *vgen.Rand, tiny bool) logBatch {
 	if tiny {
 		n = r.Range(1, 3)
 	}
+	if r.Chance(1, 60) {
+		n = 0 // an empty batch: nothing is uploaded
+	}
 	for i := 0; i < n; i++ {
 		f := recordFactory{
 			EventName:         vgen.Pick(r, []string{"", "", "device.app.lifecycle", "evt"}),
@@ -273,9 +276,27 @@ func runLogs(ctx context.Context, w *vgen.Writer, r *vgen.Rand, o vgen.Opts, hc 
 		w.Violation("cannot build the otlploggrpc exporter: "+err.Error(), nil)
 		return
 	}
-	defer func() { _ = he.Shutdown(ctx); _ = ge.Shutdown(ctx) }()
+	// the same exporters configured through the other option spellings, with gzip
+	hz, err := otlploghttp.New(ctx, otlploghttp.WithEndpointURL("http://"+hc.addr()+"/v1/logs"), otlploghttp.WithCompression(otlploghttp.GzipCompression),
+		otlploghttp.WithRetry(otlploghttp.RetryConfig{Enabled: false}), otlploghttp.WithTimeout(20*time.Second))
+	if err != nil {
+		w.Violation("cannot build the otlploghttp exporter (gzip, endpoint URL): "+err.Error(), nil)
+		return
+	}
+	gz, err := otlploggrpc.New(ctx, otlploggrpc.WithEndpointURL("http://"+gc.addr()), otlploggrpc.WithCompressor("gzip"),
+		otlploggrpc.WithRetry(otlploggrpc.RetryConfig{Enabled: false}), otlploggrpc.WithTimeout(20*time.Second))
+	if err != nil {
+		w.Violation("cannot build the otlploggrpc exporter (gzip, endpoint URL): "+err.Error(), nil)
+		return
+	}
+	defer func() { _ = he.Shutdown(ctx); _ = ge.Shutdown(ctx); _ = hz.Shutdown(ctx); _ = gz.Shutdown(ctx) }()
 
-	one := func(b logBatch, kind string) {
+	one := func(b logBatch, kind string, zip bool) {
+		he, ge := he, ge
+		if zip {
+			he, ge = hz, gz
+			w.Tally("logs:route:gzip+endpoint-url")
+		}
 		desc := map[string]any{"signal": "logs", "records": len(b.recs), "resources": b.nres, "scopes": b.nscopes,
 			"twin_resources": b.twin, "dropped_attributes": b.dropped, "empty_values": b.empty}
 		// each exporter gets its own copy of the records
@@ -341,16 +362,19 @@ func runLogs(ctx context.Context, w *vgen.Writer, r *vgen.Rand, o vgen.Opts, hc 
 		if b.empty {
 			w.Tally("logs:shape:empty-value")
 		}
-		w.Add(term, desc, kind, len(b.recs) > 1 || b.recs[0].AttributesLen() > 0)
+		if len(b.recs) == 0 {
+			w.Tally("logs:shape:empty-batch")
+		}
+		w.Add(term, desc, kind, len(b.recs) > 1 || (len(b.recs) == 1 && b.recs[0].AttributesLen() > 0))
 	}
 
 	for i, b := range logCorpus() {
-		guard(map[string]any{"signal": "logs", "corpus": i}, func() { one(b, "logs-corpus") })
+		guard(map[string]any{"signal": "logs", "corpus": i}, func() { one(b, "logs-corpus", i%2 == 1) })
 	}
 	n := o.Count(200, 5000)
 	for i := 0; i < n; i++ {
 		b := genLogBatch(r, i%3 == 0)
-		guard(map[string]any{"signal": "logs", "batch": i}, func() { one(b, "logs") })
+		guard(map[string]any{"signal": "logs", "batch": i}, func() { one(b, "logs", i%3 == 2) })
 	}
 }
 
@@ -389,6 +413,8 @@ func logCorpus() []logBatch {
 	scT2 := &instrumentation.Scope{Name: "lib/a", Version: "v1", SchemaURL: "urn:s", Attributes: attribute.NewSet(attribute.String("tenant", "b"))}
 	out = append(out, logBatch{recs: []sdklog.Record{mk(1, res1, scA).newRecord(), mk(2, res1, scV).newRecord(), mk(3, res1, scU).newRecord(),
 		mk(4, res1, scT1).newRecord(), mk(5, res1, scT2).newRecord(), mk(6, res1, scT1).newRecord(), mk(7, res1, scA).newRecord()}, nres: 1, nscopes: 5})
+	// exporter-level path: an empty batch
+	out = append(out, logBatch{})
 	// severity table and ids
 	var recs []sdklog.Record
 	for s := 0; s <= 24; s += 3 {
